@@ -325,6 +325,13 @@ func runTransparency(c *fw.Ctx, idx int, concurrent bool) fw.Result {
 			if kind == "error-differs" {
 				m = withFacts(m, "error_class", classifyErr(want.Err+s.o.Err))
 			}
+			if mask&1 != 0 {
+				norm := s.o.Norm
+				if norm == "" {
+					norm = want.Norm
+				}
+				m = withFacts(m, "duplicate_fetches_at_one_path_under_dedup_off", duplicateFetchesUnderDedupOff(gs.Engine.VerifPlannerConfiguration(), in.superSDL, norm))
+			}
 			res.Violate("transparency."+kind, "a request served by the shared engine ("+ms+") and by a fresh default engine: "+msg, m,
 				detail(map[string]any{"fresh_engine": truncate(want.outcome(), 3000), "shared_engine": truncate(s.o.outcome(), 3000), "first_difference": firstDiff(want.outcome(), s.o.outcome()),
 					"requests_shared": reqDump(s.o.Reqs), "requests_fresh": reqDump(want.Reqs), "stack": s.o.Stack + want.Stack}))
@@ -502,7 +509,7 @@ func runTransparency(c *fw.Ctx, idx int, concurrent bool) fw.Result {
 				d["where"] = p.where
 				d["response"], d["response_renamed"] = truncate(p.a.Raw, 3000), truncate(p.b.Raw, 3000)
 				d["first_difference"] = firstDiff(p.a.Raw, p.b.Raw)
-				res.Violate("transparency.rename-changes-response", "renaming the variables of a request changes the response ("+p.where+")", withFacts(baseMatch, "where", strings.Fields(p.where)[0]), d)
+				res.Violate("transparency.rename-changes-response", "renaming the variables of a request changes the response ("+p.where+")", renameFacts(baseMatch, strings.Fields(p.where)[0], mask, gs, in, p.b), d)
 			}
 		}
 	}
@@ -544,4 +551,12 @@ func blankMinifiedKeys(keys []string) []string {
 	}
 	sort.Strings(out)
 	return out
+}
+
+func renameFacts(base map[string]string, where string, mask int, gs *rig, in *input, o *obs) map[string]string {
+	m := withFacts(base, "where", where)
+	if where == "shared" && mask&1 != 0 && o != nil {
+		m["duplicate_fetches_at_one_path_under_dedup_off"] = duplicateFetchesUnderDedupOff(gs.Engine.VerifPlannerConfiguration(), in.superSDL, o.Norm)
+	}
+	return m
 }
